@@ -29,7 +29,8 @@ EXPLANATION = (
     "`override` only under a severity<=WARNING guard, compare only non-NULL class names (partial evaluation "
     "of the guard over the constant table) and ERRORoccurred is never written under an `override` test. "
     "(R3b) the name diagnostics are attributed to changes only together with the file the scanner reads (each reachable writer of current_filename is called with the FILE* its caller installs with perplexFileScanner). (R6) a loop counter quoted by a diagnostic comes from a loop without early exits. (R7) the file name handed to the parser is a private copy on every path on which it is not NULL. Not decided: helpfulness of texts, ordering of buffered messages, that the quoted value is right for "
-    "sites where provenance is not a lookup.")
+    "sites where provenance is not a lookup."
+    " (R4.lookup_scope) at report sites guarded by a failed look-up, a further %s argument that names a scope is the scope that was searched when the message template says `in <scope>`, and that declaration or the one whose enclosing scope was searched when it says `for <declaration>`.")
 
 # R1 exception table: sites whose mismatch provably cannot execute (site key -> reason)
 R1_UNREACHABLE = {}
